@@ -126,6 +126,27 @@ def parseDoc (s : Str) : Option XNode :=
   | some (x, []) => some x
   | _ => none
 
+/-- `parse_root(raw)` (xml_.py): name and attributes of the root element, read from its START TAG alone — what
+    `iterparse(events=('start',))` reports first; nothing after the start tag is looked at. -/
+def parseRoot (s : Str) : Option (Str × List (Str × Str)) :=
+  match s with
+  | '<' :: r =>
+    let (n, r1) := takeName r
+    if n.isEmpty then none else
+    match readAttrs (r1.length + 1) r1 with
+    | none => none
+    | some (attrs, r2) =>
+      match r2 with
+      | '/' :: '>' :: _ => some (n, attrs)
+      | '>' :: _ => some (n, attrs)
+      | _ => none
+  | _ => none
+
+/-- Name and attributes of a node, if it is an element. -/
+def rootOf : XNode → Option (Str × List (Str × Str))
+  | .elem n a _ => some (n, a)
+  | .text _ => none
+
 /-! ### Well-formedness of trees (what lxml lets one build) -/
 
 def validName (n : Str) : Bool :=
